@@ -133,6 +133,24 @@ def check(case, ctx):
                     fails.append(Failure("%s:peel-changes-core" % fn.__name__, "k=%s" % k, case))
                 _check_peel(fn.__name__, W, M, k, core, order, level, case, fails)
 
+    # history: the SAME array object, edited in place (one node cut off), handed in again
+    cut = case.get("cut")
+    if cut is not None and n > cut and not fails and levels:
+        X = gen.layout(W.copy(), case.get("order"))
+        kk = levels[len(levels) // 2]
+        ctx.call(fn, X, kk)
+        if kind in ("bu", "bd"):
+            ctx.call(bct.kcoreness_centrality_bu if kind == "bu" else bct.kcoreness_centrality_bd, X)
+        X[cut, :] = 0
+        X[:, cut] = 0
+        M2 = oc.contribution_matrix(X, kind)
+        core2 = _core(M2, kk, n)
+        o = ctx.call(fn, X, kk)
+        if o.ok:
+            want2 = _restrict(X, core2) if kk > 0 else X
+            if not np.array_equal(np.asarray(o.value[0], dtype=float), want2):
+                fails.append(Failure("%s:stale-answer-after-in-place-edit" % fn.__name__, "k=%s, node %d cut off in place" % (kk, cut), case))
+
     if kind in ("bu", "bd") and case.get("coreness", True):
         f = bct.kcoreness_centrality_bu if kind == "bu" else bct.kcoreness_centrality_bd
         r = run(f, gen.layout(W.copy(), case.get("order")))
@@ -226,10 +244,10 @@ def cases(draw, nmax, kinds):
         M = oc.contribution_matrix(W, "wu")
         lv = _levels_wu(M)
         pick = draw(st.lists(st.sampled_from(lv), min_size=1, max_size=4, unique=True)) if lv else [0.5]
-        return {"kind": kind, "W": W, "levels": sorted(pick), "order": draw(st.sampled_from(gen.ORDERS))}
+        return {"kind": kind, "W": W, "levels": sorted(pick), "order": draw(st.sampled_from(gen.ORDERS)), "cut": draw(st.integers(0, 2))}
     W = A.astype(float)
     M = oc.contribution_matrix(W, kind)
-    return {"kind": kind, "W": W, "levels": _levels_bin(M), "coreness": True, "order": draw(st.sampled_from(gen.ORDERS))}
+    return {"kind": kind, "W": W, "levels": _levels_bin(M), "coreness": True, "order": draw(st.sampled_from(gen.ORDERS)), "cut": draw(st.integers(0, 2))}
 
 
 _SP = {}
